@@ -1,5 +1,6 @@
 import UberjobModel.Lemmas.EngineSteps
 import UberjobModel.Lemmas.EngineExamples
+import UberjobModel.Props.C07
 /-!
 # C17 — Ctrl-C during a run stops new work and waits for in-flight calls (engine part)
 
@@ -46,5 +47,32 @@ theorem C17_inflight {g : Graph} {cfg : Cfg} {s s' : St} {l : Label} {w x : Nat}
 
 example : (run? diamond ⟨2, some 0⟩ (init diamond) diamondIntr).map (fun s => (s.begun, s.skipped, s.coord))
     = some ([0, 1, 2], [3], Coord.returned true) := by decide
+
+open Uberjob.EngineQ in
+/-- **Ctrl-C reaches a calling thread that is ASLEEP** in `all_tasks_done.wait()` (`Model/EngineQ.lean`): whenever the caller
+    is inside `queue.join()` — awake, asleep or just notified — the interrupt is enabled; it leaves the caller awake in the
+    `finally` of the run (`stopping true`), and from there the run can always be driven to its end by threads that are awake
+    (`C07_q_can_finish`): workers asleep in `queue.get()` are woken by the sentinels, one `notify()` each. -/
+theorem C17_interrupt_wakes {g : Graph} (hg : g.WF) {cfg : Cfg} (hw : 1 ≤ cfg.workers) {s : StQ} (hr : ReachQ g cfg s)
+    (hc : s.c.coord = .waiting) :
+    ∃ s', stepQ? g cfg s .interrupt = some s' ∧ s'.cs = .awake ∧ s'.c.coord = .stopping true ∧
+      ∃ ls sf, runQ? g cfg s' ls = some sf ∧ ∃ i, sf.c.coord = .returned i := by
+  have hstep : stepQ? g cfg s .interrupt = some { s with c := { s.c with coord := .stopping true }, cs := .awake } := by
+    simp [stepQ?, step?, hc]
+  refine ⟨_, hstep, rfl, rfl, ?_⟩
+  exact C07_q_can_finish hg hw _ _ (Nat.le_refl _) (ReachQ.step _ hr hstep)
+
+/-- The interrupted flag is carried to the end: a run that was interrupted ends in `returned true` (KeyboardInterrupt
+    propagates), never in `returned false`. -/
+theorem C17_interrupted_stays {g : Graph} {cfg : Cfg} {s s' : St} {l : Label} (hs : step? g cfg s l = some s') :
+    (s.coord = .stopping true ∨ (∃ k, s.coord = .putting k true) ∨ s.coord = .joining true ∨ s.coord = .returned true) →
+    (s'.coord = .stopping true ∨ (∃ k, s'.coord = .putting k true) ∨ s'.coord = .joining true ∨ s'.coord = .returned true) := by
+  intro hc
+  cases l <;> simp only [step?, setW] at hs
+  all_goals
+    repeat' split at hs
+    all_goals first
+      | (cases hs; simp_all)
+      | cases hs
 
 end Uberjob.Engine
